@@ -1,16 +1,25 @@
 import PsyVerif.Lemmas.DepPart
+import PsyVerif.Lemmas.DepWhile
 /-! # C08 — loops reported parallelisable have no loop-carried dependence
 
-Model: `PsyVerif/Model/DepTools.lean` (mirrors `DependencyTools.can_loop_be_parallelised` on MiniF loops, FIXED
-`d_<var>` name loop).  Per-iteration footprints are the element-level events of the tracing semantics `execT`
-(`execT_agrees` ties it to `MiniF.exec`).
+Model: `PsyVerif/Model/DepTools.lean` mirrors `DependencyTools.can_loop_be_parallelised` on MiniF loops
+(`_partition`, `_independent_0_var`, `_get_dependency_distance`, `_independent_multi_subscript`,
+`_is_loop_carried_dependency`, `_array_access_parallelisable`, `_is_scalar_parallelisable`, message codes) in
+FIXED mode: fixes/C08-dvar-loop (name loop), C08-integer-division, C08-symbolic-coefficient, C08-stale-subscript,
+C08-inner-variable-subscript.  Per-iteration footprints are the element-level events of the tracing semantics
+`execT` (`execT_agrees` ties it to `MiniF.exec`).
 
-The pinned analysis is unsound in four ways, each exhibited on the model by a kernel-checked witness
-(`intdiv_counterexample`, `conditional_scalar_counterexample`, `stale_subscript_counterexample`,
-`inner_variable_counterexample`), so the full statement `C08_statement` is false; `C08_partial` proves it under
-the decidable side conditions `NoIntDiv`, `ScalarsUnconditional`, `SubscriptsStable` that exclude exactly these
-classes.  Termination of the (fixed) name loop is `depDistance_terminates` / `C08_terminates`; the pinned loop
-spins on two taken names (`dvar_loop_diverges`). -/
+* `C08_partial` / `C08_sequential`: "parallelisable" implies no loop-carried conflict, for ALL subscript forms of
+  MiniF (affine `c·i + d` with symbolic `d`, several loop variables and subscripts through the partition logic,
+  `/`, MOD, index arrays, products), all values of the symbols, all stores, all trip counts — under the single
+  decidable side condition `ScalarsUnconditional` (plus the Fortran well-formedness `WellFormed`).
+* That side condition is needed: `conditional_scalar_counterexample`, `C08_counterexample : ¬ C08_statement`
+  (known finding C08-conditional-scalar, pinned by `test_scalar_parallelise`).
+* The four repaired classes: `intdiv_refused`, `stale_subscript_refused`, `inner_variable_refused`,
+  `symbolic_coefficient_refused` (the conflict is real and the fixed analysis refuses the loop).
+* Termination: `depDistance_terminates` / `C08_terminates` (fixed `d_<var>` loop, fuel = |symbol map| + 1),
+  `dvar_loop_diverges` / `dvar_loop_trace` (the pinned loop spins on `{d_i, d1_i}`), `partition_terminates`
+  (the literal `while` loop of `_partition` with fuel `len + 1` computes the partition the proofs use). -/
 namespace C08
 open MiniF
 
@@ -154,61 +163,61 @@ theorem sub_mem {es : List Expr} {p : Nat} (h : p < es.length) : sub es p ∈ es
   simp only [sub, List.getD_eq_getElem?_getD, List.getElem?_eq_getElem h, Option.getD_some]
   exact List.getElem_mem h
 
-/-- a distance of zero is only reported when both subscripts contain the loop variable as a linear atom -/
-theorem dist0_mentions {i : Nat} {dn : List (Nat × Nat)} {w o : Expr} (hw : noDivMod w = true)
-    (ho : noDivMod o = true) (h : depDistance i dn w o = some 0) : i ∈ C08.evars w ∧ i ∈ C08.evars o := by
-  have hdw := (norm_sound w ⟨fun _ => 0⟩ hw).1
-  have hdo := (norm_sound o ⟨fun _ => 0⟩ ho).1
-  unfold depDistance at h
-  split at h
-  case isFalse => exact absurd h (by simp)
-  split at h
-  case h_1 => exact absurd h (by simp)
-  simp only [hdw, hdo, Int.mul_one] at h
-  split at h
-  case isTrue => exact absurd h (by simp)
-  split at h
-  case isTrue => exact absurd h (by simp)
-  rename_i hcg
-  split at h
-  case isTrue => exact absurd h (by simp)
-  rename_i hst
-  have hst' : sameTerms (norm w) (norm o) = true := by simpa using hst
-  have hc := sameTerms_coef hdw hdo hst'
-  have hcg' : coef (norm o).terms (.var i) ≠ 0 := by simpa using hcg
-  have mem : ∀ e : Expr, coef (norm e).terms (.var i) ≠ 0 → i ∈ C08.evars e := by
-    intro e hne
-    by_cases hm : ∃ c, (Expr.var i, c) ∈ (norm e).terms
-    · obtain ⟨c, hc⟩ := hm
-      exact norm_atom_vars e (.var i) c hc i (by simp [C08.evars])
-    · exact absurd (coef_eq_zero_of_not_mem (fun c hc => hm ⟨c, hc⟩)) hne
-  exact ⟨mem w (by rw [hc]; exact hcg'), mem o hcg'⟩
+/-- every written variable has a write access in the summary -/
+theorem wvars_has_write (c : Bool) (s : Stmt) :
+    ∀ y ∈ C08.wvars s, ∃ a ∈ stmtAcc c s, a.var = y ∧ a.write = true := by
+  induction s generalizing c with
+  | skip => intro y h; simp [C08.wvars] at h
+  | seq p q ihp ihq =>
+    intro y h
+    simp only [C08.wvars, List.mem_append] at h
+    rcases h with h | h
+    · obtain ⟨a, ha, h1, h2⟩ := ihp c y h
+      exact ⟨a, by simp only [stmtAcc]; exact List.mem_append_left _ ha, h1, h2⟩
+    · obtain ⟨a, ha, h1, h2⟩ := ihq c y h
+      exact ⟨a, by simp only [stmtAcc]; exact List.mem_append_right _ ha, h1, h2⟩
+  | assign x e =>
+    intro y h
+    simp only [C08.wvars, List.mem_singleton] at h
+    exact ⟨⟨x, true, [], c⟩, by simp [stmtAcc], h.symm, rfl⟩
+  | store1 x i e =>
+    intro y h
+    simp only [C08.wvars, List.mem_singleton] at h
+    exact ⟨⟨x, true, [i], c⟩, by simp [stmtAcc], h.symm, rfl⟩
+  | store2 x i j e =>
+    intro y h
+    simp only [C08.wvars, List.mem_singleton] at h
+    exact ⟨⟨x, true, [i, j], c⟩, by simp [stmtAcc], h.symm, rfl⟩
+  | ite cnd t f iht ihf =>
+    intro y h
+    simp only [C08.wvars, List.mem_append] at h
+    rcases h with h | h
+    · obtain ⟨a, ha, h1, h2⟩ := iht true y h
+      exact ⟨a, by simp only [stmtAcc]; exact List.mem_append_left _ (List.mem_append_right _ ha), h1, h2⟩
+    · obtain ⟨a, ha, h1, h2⟩ := ihf true y h
+      exact ⟨a, by simp only [stmtAcc]; exact List.mem_append_right _ ha, h1, h2⟩
+  | loop v lo hi st b ih =>
+    intro y h
+    simp only [C08.wvars, List.mem_cons] at h
+    rcases h with h | h
+    · exact ⟨⟨v, true, [], c⟩, by simp [stmtAcc], h.symm, rfl⟩
+    · obtain ⟨a, ha, h1, h2⟩ := ih true y h
+      exact ⟨a, by simp only [stmtAcc]; exact List.mem_append_right _ ha, h1, h2⟩
 
 /-! ## The property -/
-
-/-- side condition 1: no subscript of the loop body contains integer division or MOD -/
-def NoIntDiv (body : Stmt) : Prop := ∀ a ∈ stmtAcc false body, ∀ s ∈ a.subs, noDivMod s = true
-
-/-- side condition 3: a variable used in a subscript is not assigned by the loop body, unless it is an inner loop
-variable in a subscript that does not use the analysed loop variable -/
-def SubscriptsStable (v : Nat) (body : Stmt) : Prop :=
-  ∀ a ∈ stmtAcc false body, ∀ s ∈ a.subs, ∀ x ∈ C08.evars s,
-    x ∈ C08.wvars body → x ∈ loopVars body ∧ v ∉ C08.evars s
 
 /-- Fortran rules the model relies on: the loop variable is not assigned in the body and loop variables are
 never subscripted -/
 def WellFormed (v : Nat) (lo hi st : Expr) (body : Stmt) : Prop :=
   v ∉ C08.wvars body ∧ ∀ x ∈ loopVars body, isArray (accsOf x (loopAccesses v lo hi st body)) = false
 
-/-- side condition 2: every scalar the body writes and the analysis lets pass (it skips loop variables; it
-accepts a scalar whose first access is a write) is written unconditionally before it is read -/
+/-- the one remaining side condition: every scalar the body writes and the analysis lets pass (it skips loop
+variables; it accepts a scalar whose first access is a write) is written unconditionally before it is read -/
 def ScalarsUnconditional (v : Nat) (lo hi st : Expr) (body : Stmt) : Prop :=
   ∀ x ∈ C08.wvars body, isArray (accsOf x (loopAccesses v lo hi st body)) = false →
     (x ∈ loopVars body ∨ scalarPar (accsOf x (loopAccesses v lo hi st body)) = none) →
     mustWriteFirst x body = true
 
-instance (body : Stmt) : Decidable (NoIntDiv body) := by unfold NoIntDiv; infer_instance
-instance (v : Nat) (body : Stmt) : Decidable (SubscriptsStable v body) := by unfold SubscriptsStable; infer_instance
 instance (v : Nat) (lo hi st : Expr) (body : Stmt) : Decidable (WellFormed v lo hi st body) := by
   unfold WellFormed; infer_instance
 instance (v : Nat) (lo hi st : Expr) (body : Stmt) : Decidable (ScalarsUnconditional v lo hi st body) := by
@@ -225,7 +234,7 @@ def Independent (v : Nat) (body : Stmt) : Prop :=
   ∀ (σ σ' : Store), AgreeOff (v :: C08.wvars body) σ σ' → ∀ (val val' : Int), val ≠ val' →
     ∀ l, Conflict v body σ σ' val val' l → ∃ x, l = (x, 0, 0) ∧ privScalar body x = true
 
-/-- the property at full strength (FALSE of the pinned analysis, see the counterexamples) -/
+/-- the property at full strength (still FALSE of the analysis: `conditional_scalar_counterexample`) -/
 def C08_statement : Prop :=
   ∀ (dn : List (Nat × Nat)) (v : Nat) (lo hi st : Expr) (body : Stmt),
     WellFormed v lo hi st body → canParallelise dn v lo hi st body = true → Independent v body
@@ -233,11 +242,14 @@ def C08_statement : Prop :=
 /-- **tracing semantics = MiniF semantics** -/
 theorem execT_agrees (s : Stmt) (σ : Store) : (execT s σ).1 = exec s σ := execT_fst s σ
 
-/-- the two accesses of an independent pair never touch the same element in two different iterations -/
-theorem pair_sound {dn : List (Nat × Nat)} {v : Nat} {body : Stmt} {a1 a2 : Access}
-    (h1 : a1 ∈ stmtAcc false body) (h2 : a2 ∈ stmtAcc false body)
+/-- the two accesses of an independent pair of an array whose subscripts passed the stale-variable test never
+touch the same element in two different iterations -/
+theorem pair_sound {dn : List (Nat × Nat)} {v : Nat} {lo hi st : Expr} {body : Stmt} {a1 a2 : Access}
+    (h1 : a1 ∈ stmtAcc false body) (h2 : a2 ∈ stmtAcc false body) (hvar : a2.var = a1.var)
+    (hstale : staleSubscript (v :: loopVars body) (loopAccesses v lo hi st body)
+      (accsOf a1.var (loopAccesses v lo hi st body)) = false)
     (hind : indepPair (v :: loopVars body) dn a1.subs a2.subs = true)
-    (hv : v ∉ C08.wvars body) (hdiv : NoIntDiv body) (hst : SubscriptsStable v body)
+    (hv : v ∉ C08.wvars body)
     {σ σ' τ1 τ2 : Store} {val val' : Int} (hval : val ≠ val')
     (hσ : AgreeOff (v :: C08.wvars body) σ σ')
     (hτ1 : AgreeOff (C08.wvars body) (σ.set (v, 0, 0) val) τ1)
@@ -251,14 +263,28 @@ theorem pair_sound {dn : List (Nat × Nat)} {v : Nat} {body : Stmt} {a1 a2 : Acc
     exact hσ x (by simp [hx, hxv]) p q
   have hv1 : τ1 (v, 0, 0) = val := by rw [← hτ1 v hv 0 0]; simp
   have hv2 : τ2 (v, 0, 0) = val' := by rw [← hτ2 v hv 0 0]; simp
+  -- the stale-variable test: a variable of a subscript that the body writes is a loop variable
+  have hloopvar : ∀ a ∈ stmtAcc false body, a.var = a1.var → ∀ s ∈ a.subs, ∀ y ∈ C08.evars s,
+      y ∈ C08.wvars body → y ∈ v :: loopVars body := by
+    intro a ha hax s hs y hy hyw
+    apply Classical.byContradiction
+    intro hnl
+    obtain ⟨wa, hwa, hwv, hww⟩ := wvars_has_write false body y hyw
+    have : staleSubscript (v :: loopVars body) (loopAccesses v lo hi st body)
+        (accsOf a1.var (loopAccesses v lo hi st body)) = true := by
+      simp only [staleSubscript, List.any_eq_true, Bool.and_eq_true, Bool.not_eq_eq_eq_not, Bool.not_true,
+        decide_eq_false_iff_not, isWritten, beq_iff_eq]
+      refine ⟨a, ?_, s, hs, y, hy, hnl, wa, body_mem_loopAccesses v lo hi st body wa hwa, hwv, hww⟩
+      simp only [accsOf, List.mem_filter, beq_iff_eq]
+      exact ⟨body_mem_loopAccesses v lo hi st body a ha, hax⟩
+    rw [hstale] at this
+    exact absurd this (by simp)
   obtain ⟨p, hp1, hp2, hsep⟩ := indepPair_separates hind
   have hm1 := sub_mem hp1
   have hm2 := sub_mem hp2
-  have hd1 := hdiv a1 h1 _ hm1
-  have hd2 := hdiv a2 h2 _ hm2
   have hne : eval (sub a1.subs p) τ1 ≠ eval (sub a2.subs p) τ2 := by
-    rcases hsep with ⟨hi0, hfree⟩ | hd0
-    · apply indep0_sound hd1 hd2 hi0
+    rcases hsep with ⟨hi0, hfree⟩ | ⟨hd0, honly⟩
+    · apply indep0_sound hi0
       intro x hx p' q'
       have hxl : x ∉ v :: loopVars body := by
         intro hxl
@@ -268,19 +294,21 @@ theorem pair_sound {dn : List (Nat × Nat)} {v : Nat} {body : Stmt} {a1 a2 : Acc
       have hxw : x ∉ C08.wvars body := by
         intro hxw
         rcases hx with hx | hx
-        · exact hxl (List.mem_cons_of_mem _ (hst a1 h1 _ hm1 x hx hxw).1)
-        · exact hxl (List.mem_cons_of_mem _ (hst a2 h2 _ hm2 x hx hxw).1)
+        · exact hxl (hloopvar a1 h1 rfl _ hm1 x hx hxw)
+        · exact hxl (hloopvar a2 h2 hvar _ hm2 x hx hxw)
       exact hag x hxw (fun he => hxl (he ▸ List.mem_cons_self)) p' q'
-    · simp only [List.headD_cons] at hd0
-      obtain ⟨hiw, hio⟩ := dist0_mentions hd1 hd2 hd0
-      intro heq
-      have := dist0_sound hd1 hd2 hd0 τ1 τ2 (by
+    · intro heq
+      have := dist0_sound hd0 τ1 τ2 (by
         intro x hxv hx p' q'
         have hxw : x ∉ C08.wvars body := by
           intro hxw
+          have hxl : x ∈ v :: loopVars body := by
+            rcases hx with hx | hx
+            · exact hloopvar a1 h1 rfl _ hm1 x hx hxw
+            · exact hloopvar a2 h2 hvar _ hm2 x hx hxw
           rcases hx with hx | hx
-          · exact (hst a1 h1 _ hm1 x hx hxw).2 hiw
-          · exact (hst a2 h2 _ hm2 x hx hxw).2 hio
+          · exact (honly x hxl hxv).1 hx
+          · exact (honly x hxl hxv).2 hx
         exact hag x hxw hxv p' q') heq
       rw [hv1, hv2] at this
       exact hval this
@@ -292,13 +320,15 @@ theorem pair_sound {dn : List (Nat × Nat)} {v : Nat} {body : Stmt} {a1 a2 : Acc
   · exact hne hloc.2.1
   · exact hne hloc.2.2
 
-/-- **C08, partial**: if the model of `can_loop_be_parallelised` reports the loop parallelisable, and no subscript
-contains integer division or MOD, accepted scalars are written unconditionally, and subscript variables are not
-assigned in the body, then no location is written by one iteration and read or written by another — except
-scalars every iteration unconditionally writes before reading. -/
+/-- **C08, partial** (FIXED analysis: name loop, integer division, symbolic coefficients, stale subscripts and
+inner-variable subscripts repaired): if the model of `can_loop_be_parallelised` reports the loop parallelisable
+and accepted scalars are written unconditionally, then no location is written by one iteration and read or written
+by another — except scalars every iteration unconditionally writes before reading.  All subscript forms
+(symbolic offsets and coefficients, `/`, MOD, index arrays, several loop variables, rank 1 and 2), all values
+of the symbols, all stores. -/
 theorem C08_partial (dn : List (Nat × Nat)) (v : Nat) (lo hi st : Expr) (body : Stmt)
     (hwf : WellFormed v lo hi st body) (hpar : canParallelise dn v lo hi st body = true)
-    (hdiv : NoIntDiv body) (hsc : ScalarsUnconditional v lo hi st body) (hst : SubscriptsStable v body) :
+    (hsc : ScalarsUnconditional v lo hi st body) :
     Independent v body := by
   intro σ σ' hσ val val' hval l ⟨hw, b, ho⟩
   obtain ⟨hv, hlv⟩ := hwf
@@ -322,7 +352,7 @@ theorem C08_partial (dn : List (Nat × Nat)) (v : Nat) (lo hi st : Expr) (body :
   have hm2 : a2 ∈ accsOf a1.var (loopAccesses v lo hi st body) := by
     simp only [accsOf, List.mem_filter, beq_iff_eq]; exact ⟨hall2, hx.symm⟩
   by_cases harr : isArray (accsOf a1.var (loopAccesses v lo hi st body)) = true
-  · -- array: the pair was tested and found independent
+  · -- array: no stale subscript variable, and the pair was tested and found independent
     have hnl : a1.var ∉ v :: loopVars body := by
       intro hmem
       simp only [List.mem_cons] at hmem
@@ -330,8 +360,14 @@ theorem C08_partial (dn : List (Nat × Nat)) (v : Nat) (lo hi st : Expr) (body :
       · exact hxv he
       · rw [hlv _ hmem] at harr; exact absurd harr (by simp)
     simp only [varVerdict, if_neg hnl, harr, if_true] at hverd
-    have hind := arrayPar_none hverd hm1 hk1 hm2
-    exact absurd (hl1.symm.trans hl2) (pair_sound ha1 ha2 hind hv hdiv hst hval hσ hτ1 hτ2)
+    split at hverd
+    · exact absurd hverd (by simp)
+    · rename_i hstale
+      have hstale' : staleSubscript (v :: loopVars body) (loopAccesses v lo hi st body)
+          (accsOf a1.var (loopAccesses v lo hi st body)) = false := by simpa using hstale
+      have hind := arrayPar_none hverd hm1 hk1 hm2
+      exact absurd (hl1.symm.trans hl2)
+        (pair_sound ha1 ha2 hx.symm hstale' hind hv hval hσ hτ1 hτ2)
   · -- scalar: accepted, hence unconditionally written first
     have harr' : isArray (accsOf a1.var (loopAccesses v lo hi st body)) = false := by simpa using harr
     have hacc : a1.var ∈ loopVars body ∨ scalarPar (accsOf a1.var (loopAccesses v lo hi st body)) = none := by
@@ -385,7 +421,7 @@ theorem iterTraces_spec (v : Nat) (body : Stmt) (lo step : Int) :
 location with a write, except privatisable scalars. -/
 theorem C08_sequential (dn : List (Nat × Nat)) (v : Nat) (lo hi st : Expr) (body : Stmt)
     (hwf : WellFormed v lo hi st body) (hpar : canParallelise dn v lo hi st body = true)
-    (hdiv : NoIntDiv body) (hsc : ScalarsUnconditional v lo hi st body) (hst : SubscriptsStable v body)
+    (hsc : ScalarsUnconditional v lo hi st body)
     (l0 step : Int) (hstep : step ≠ 0) (n : Nat) (σ : Store) (a b : Nat) (ha : a < n) (hb : b < n) (hab : a ≠ b)
     (ta tb : List Ev) (hta : (iterTraces v body l0 step n 0 σ)[a]? = some ta)
     (htb : (iterTraces v body l0 step n 0 σ)[b]? = some tb)
@@ -405,7 +441,7 @@ theorem C08_sequential (dn : List (Nat × Nat)) (v : Nat) (lo hi st : Expr) (bod
       omega
     have h2 := Int.eq_of_mul_eq_mul_right hstep h1
     exact hab (by exact_mod_cast h2)
-  exact C08_partial dn v lo hi st body hwf hpar hdiv hsc hst σa σb hag _ _ hval l ⟨hw, bb, ho⟩
+  exact C08_partial dn v lo hi st body hwf hpar hsc σa σb hag _ _ hval l ⟨hw, bb, ho⟩
 
 /-! ## Termination of the `d_<var>` name loop -/
 
@@ -473,19 +509,22 @@ example : freshD [0, 1] = some 2 := by decide
 example : freshD [1, 0, 2, 5] = some 3 := by decide
 example : freshPinned [0] 5 = some 1 := by decide
 
-/-! ## Counterexamples (ids: i=0, a=1, b=2, c=3, t=4, j=5, m=6) -/
+/-- **`_partition` terminates**: the literal Python while loop (one pass per loop variable, fuel = current length
++ 1) never runs out of fuel and returns exactly the partition the soundness proof reasons about -/
+theorem partition_terminates (lvars : List Nat) (w o : List Expr) :
+    partitionW lvars w o = some (partition lvars w o) :=
+  partitionW_fold lvars _
+
+/-- the counterexample trace of the pinned name loop on `{d_<var>, d1_<var>}`: after the first step the candidate
+is `d1_<var>` forever (the hang the fix removes); the fixed loop answers `d2_<var>` in three steps -/
+theorem dvar_loop_trace : ∀ fuel, pinnedLoop [0, 1] (fuel + 1) 0 = pinnedLoop [0, 1] fuel 1 ∧
+    pinnedLoop [0, 1] (fuel + 1) 1 = pinnedLoop [0, 1] fuel 1 ∧ freshLoop [0, 1] 3 0 = some 2 := by
+  intro fuel
+  refine ⟨by simp [pinnedLoop], by simp [pinnedLoop], by decide⟩
+
+/-! ## Witnesses (ids: i=0, a=1, b=2, c=3, t=4, j=5, m=6, n=7) -/
 
 def zeroStore : Store := ⟨fun _ => 0⟩
-
-/-- `do i = 0, 5: a(i/2+1) = b(i)` -/
-def intdivBody : Stmt := .store1 1 (.bin .add (.bin .div (.var 0) (.lit 2)) (.lit 1)) (.idx1 2 (.var 0))
-
-/-- the model (like the real code) reports the loop parallelisable, but iterations 0 and 1 both write `a(1)` -/
-theorem intdiv_counterexample :
-    canParallelise [] 0 (.lit 0) (.lit 5) (.lit 1) intdivBody = true ∧
-    WellFormed 0 (.lit 0) (.lit 5) (.lit 1) intdivBody ∧
-    Conflict 0 intdivBody zeroStore zeroStore 0 1 (1, 1, 0) ∧ ¬ NoIntDiv intdivBody := by
-  refine ⟨by decide, by decide, ⟨by decide, true, by decide⟩, by decide⟩
 
 /-- `do i: if (b(i) > 10) t = b(i); c(i) = t` -/
 def condBody : Stmt :=
@@ -503,56 +542,81 @@ theorem conditional_scalar_counterexample :
     ¬ ScalarsUnconditional 0 (.lit 0) (.lit 5) (.lit 1) condBody := by
   refine ⟨by decide, by decide, ⟨by decide, false, by decide⟩, by decide, by decide⟩
 
+/-- the property at full strength fails on the model: the first *textual* write of a scalar is taken for an
+unconditional one (known finding C08-conditional-scalar; the behaviour is pinned by
+`dependency_tools_test.py::test_scalar_parallelise`, which expects a scalar first written in an inner loop to be
+accepted) -/
+theorem C08_counterexample : ¬ C08_statement := by
+  intro h
+  obtain ⟨hpar, hwf, hc, hp, _⟩ := conditional_scalar_counterexample
+  obtain ⟨x, hx, hpx⟩ := h [] 0 (.lit 0) (.lit 5) (.lit 1) condBody hwf hpar condStore condStore
+    (AgreeOff.refl _ _) 0 1 (by decide) (4, 0, 0) hc
+  simp only [Prod.mk.injEq] at hx
+  rw [← hx.1, hp] at hpx
+  exact absurd hpx (by simp)
+
+/-! ### the four repaired defect classes: the conflict is real, and the (fixed) analysis refuses the loop -/
+
+/-- `do i = 0, 5: a(i/2+1) = b(i)` -/
+def intdivBody : Stmt := .store1 1 (.bin .add (.bin .div (.var 0) (.lit 2)) (.lit 1)) (.idx1 2 (.var 0))
+
+/-- iterations 0 and 1 both write `a(1)`; a subscript with `/` is no longer handed to SymPy: write-write race -/
+theorem intdiv_refused :
+    Conflict 0 intdivBody zeroStore zeroStore 0 1 (1, 1, 0) ∧
+    messages [] 0 (.lit 0) (.lit 5) (.lit 1) intdivBody = [(201, 1)] := by
+  refine ⟨⟨by decide, true, by decide⟩, by decide⟩
+
 /-- `do i: t = b(i); a(i+t) = 1` -/
 def staleBody : Stmt := .seq (.assign 4 (.idx1 2 (.var 0))) (.store1 1 (.bin .add (.var 0) (.var 4)) (.lit 1))
 
 def staleStore : Store := storeOf [((2, 0, 0), 1)]
 
-/-- reported parallelisable, but with `b(0)=1, b(1)=0` iterations 0 and 1 both write `a(1)` -/
-theorem stale_subscript_counterexample :
-    canParallelise [] 0 (.lit 0) (.lit 5) (.lit 1) staleBody = true ∧
-    WellFormed 0 (.lit 0) (.lit 5) (.lit 1) staleBody ∧
-    Conflict 0 staleBody staleStore staleStore 0 1 (1, 1, 0) ∧ ¬ SubscriptsStable 0 staleBody := by
-  refine ⟨by decide, by decide, ⟨by decide, true, by decide⟩, by decide⟩
+/-- with `b(0)=1, b(1)=0` iterations 0 and 1 both write `a(1)`; the subscript uses `t`, which the loop assigns -/
+theorem stale_subscript_refused :
+    Conflict 0 staleBody staleStore staleStore 0 1 (1, 1, 0) ∧
+    messages [] 0 (.lit 0) (.lit 5) (.lit 1) staleBody = [(202, 1)] := by
+  refine ⟨⟨by decide, true, by decide⟩, by decide⟩
 
 /-- `do i: do j = 1, 2: m(i+j, j-j+1) = 1` -/
 def innerBody : Stmt :=
   .loop 5 (.lit 1) (.lit 2) (.lit 1)
     (.store2 6 (.bin .add (.var 0) (.var 5)) (.bin .add (.bin .sub (.var 5) (.var 5)) (.lit 1)) (.lit 1))
 
-/-- reported parallelisable in `i`, but (i,j)=(1,2) and (2,1) both write `m(3,1)` -/
-theorem inner_variable_counterexample :
-    canParallelise [] 0 (.lit 1) (.lit 4) (.lit 1) innerBody = true ∧
-    WellFormed 0 (.lit 1) (.lit 4) (.lit 1) innerBody ∧
-    Conflict 0 innerBody zeroStore zeroStore 1 2 (6, 3, 1) ∧ ¬ SubscriptsStable 0 innerBody := by
-  refine ⟨by decide, by decide, ⟨by decide, true, by decide⟩, by decide⟩
+/-- (i,j)=(1,2) and (2,1) both write `m(3,1)`; the multi-subscript test skips subscripts using `j` -/
+theorem inner_variable_refused :
+    Conflict 0 innerBody zeroStore zeroStore 1 2 (6, 3, 1) ∧
+    messages [] 0 (.lit 1) (.lit 4) (.lit 1) innerBody = [(201, 6)] := by
+  refine ⟨⟨by decide, true, by decide⟩, by decide⟩
 
-/-- the property at full strength fails on the model of the pinned analysis -/
-theorem C08_counterexample : ¬ C08_statement := by
-  intro h
-  obtain ⟨hpar, hwf, hc, _⟩ := intdiv_counterexample
-  obtain ⟨x, hx, _⟩ := h [] 0 (.lit 0) (.lit 5) (.lit 1) intdivBody hwf hpar zeroStore zeroStore
-    (AgreeOff.refl _ _) 0 1 (by decide) (1, 1, 0) hc
-  simp only [Prod.mk.injEq] at hx
-  omega
+/-- `do i: a(n*i+1) = b(i)` -/
+def symcoefBody : Stmt :=
+  .store1 1 (.bin .add (.bin .mul (.var 7) (.var 0)) (.lit 1)) (.idx1 2 (.var 0))
+
+/-- with `n = 0` every iteration writes `a(1)`; a product with the loop variable gives no distance -/
+theorem symbolic_coefficient_refused :
+    Conflict 0 symcoefBody zeroStore zeroStore 1 2 (1, 1, 0) ∧
+    messages [] 0 (.lit 1) (.lit 4) (.lit 1) symcoefBody = [(201, 1)] := by
+  refine ⟨⟨by decide, true, by decide⟩, by decide⟩
 
 /-! ## Non-vacuity and sanity evaluations -/
 
-/-- `do i: t = b(i); a(i) = a(i) + t; do j = 1, 3: m(i, j) = m(i, j+1) + a(i)` -/
+/-- `do i: t = b(i); a(i+n) = a(i+n) + t; do j = 1, 3: m(i, j) = m(i, j+1) + a(i+n)` -/
 def goodBody : Stmt :=
   .seq (.assign 4 (.idx1 2 (.var 0)))
-    (.seq (.store1 1 (.var 0) (.bin .add (.idx1 1 (.var 0)) (.var 4)))
+    (.seq (.store1 1 (.bin .add (.var 0) (.var 7)) (.bin .add (.idx1 1 (.bin .add (.var 0) (.var 7))) (.var 4)))
       (.loop 5 (.lit 1) (.lit 3) (.lit 1)
-        (.store2 6 (.var 0) (.var 5) (.bin .add (.idx2 6 (.var 0) (.bin .add (.var 5) (.lit 1))) (.idx1 1 (.var 0))))))
+        (.store2 6 (.var 0) (.var 5)
+          (.bin .add (.idx2 6 (.var 0) (.bin .add (.var 5) (.lit 1))) (.idx1 1 (.bin .add (.var 0) (.var 7)))))))
 
-/-- all hypotheses of `C08_partial` hold together on a loop with a private scalar, an array update and a nest -/
+/-- all hypotheses of `C08_partial` hold together on a loop with a private scalar, an array update with a symbolic
+offset and a nest -/
 example : WellFormed 0 (.lit 0) (.var 7) (.lit 1) goodBody ∧
-    canParallelise [] 0 (.lit 0) (.var 7) (.lit 1) goodBody = true ∧ NoIntDiv goodBody ∧
-    ScalarsUnconditional 0 (.lit 0) (.var 7) (.lit 1) goodBody ∧ SubscriptsStable 0 goodBody := by
-  refine ⟨by decide, by decide, by decide, by decide, by decide⟩
+    canParallelise [] 0 (.lit 0) (.var 7) (.lit 1) goodBody = true ∧
+    ScalarsUnconditional 0 (.lit 0) (.var 7) (.lit 1) goodBody := by
+  refine ⟨by decide, by decide, by decide⟩
 
 example : Independent 0 goodBody :=
-  C08_partial [] 0 (.lit 0) (.var 7) (.lit 1) goodBody (by decide) (by decide) (by decide) (by decide) (by decide)
+  C08_partial [] 0 (.lit 0) (.var 7) (.lit 1) goodBody (by decide) (by decide) (by decide)
 
 -- the exception is exercised: both iterations write the private scalar `t`
 example : Conflict 0 goodBody zeroStore zeroStore 0 1 (4, 0, 0) ∧ privScalar goodBody 4 = true :=
@@ -572,16 +636,17 @@ example : depDistance 0 [] (.var 0) (.bin .sub (.var 0) (.lit 1)) = some 1 := by
 -- names `d_i` (id 8) and `d1_i` (id 9) in the subscripts: the fixed loop picks `d2_i`, the distance is still found
 example : depDistance 0 [(8, 0), (9, 1)] (.bin .add (.var 0) (.var 8)) (.bin .add (.var 0) (.var 8)) = some 0 := by
   decide
-
--- `never_equal`: only a non-zero INTEGER difference separates two loop-variable-free subscripts; a rational one
--- (`n/2` vs `(n+1)/2`: -1/2 for SymPy, but equal in Fortran for even `n`) does not (n has id 7)
+-- `never_equal`: only a non-zero INTEGER difference separates two loop-variable-free subscripts, and any `/` is
+-- refused outright (n has id 7)
 example : independent0 (.bin .div (.var 7) (.lit 2)) (.bin .div (.bin .add (.var 7) (.lit 1)) (.lit 2)) = false := by
   decide
-example : independent0 (.bin .add (.bin .div (.var 7) (.lit 2)) (.lit 1)) (.bin .div (.var 7) (.lit 2)) = true := by
+example : independent0 (.bin .add (.bin .div (.var 7) (.lit 2)) (.lit 1)) (.bin .div (.var 7) (.lit 2)) = false := by
   decide
-example : independent0 (.var 7) (.bin .sub (.var 7) (.lit 1)) = true := by decide
+example : independent0 (.bin .add (.var 7) (.lit 1)) (.var 7) = true := by decide
+example : independent0 (.bin .mod (.var 7) (.lit 3)) (.bin .add (.bin .mod (.var 7) (.lit 3)) (.lit 1)) = true := by
+  decide
 example : independent0 (.var 7) (.var 8) = false := by decide
--- `do i: m(n/2, i) = m((n+1)/2, i-1) + 1` (m has id 6) is a dependency (202) for the model, as for the real code
+-- `do i: m(n/2, i) = m((n+1)/2, i-1) + 1` (m has id 6) is a dependency (202)
 example : messages [] 0 (.lit 2) (.lit 5) (.lit 1)
     (.store2 6 (.bin .div (.var 7) (.lit 2)) (.var 0)
       (.bin .add (.idx2 6 (.bin .div (.bin .add (.var 7) (.lit 1)) (.lit 2)) (.bin .sub (.var 0) (.lit 1))) (.lit 1)))
